@@ -462,3 +462,89 @@ func TestDumpLoadAgainstModel(t *testing.T) {
 	}
 	fmt.Printf("VERIF-STAT {\"dumpload_cases\": %d, \"dumpload_rejected_before_reset\": %d, \"dumpload_accepted_without_reset\": %d, \"dumpload_max_handles\": %d, \"dumpload_dead_handles_compared\": %d}\n", n, rejected, emptyTargets, maxIssued, removed)
 }
+
+// TestWorldDumpLoadAgainstModel ties the world-level model of DumpEntities / LoadEntities
+// (Model/DumpLoadW.v: Alive list in Filter0 order, rebuilt entity index, target flags and
+// component-less table) to the implementation: a seeded history of the `store` / `relations`
+// streams runs on the implementation and (as a script) on the extracted model; the entity dump of
+// the final state is loaded into a new world of the same configuration; the full internal dump
+// (VerifDump) of the loaded world must equal the model's.
+func TestWorldDumpLoadAgainstModel(t *testing.T) {
+	n := 60
+	if thorough() {
+		n = 700
+	}
+	var in strings.Builder
+	var want []string
+	maxAlive, totalAlive, relWorlds := 0, 0, 0
+	for k := 0; k < n; k++ {
+		r := sim.NewRng(seed()*32452843 + uint64(k))
+		name := []string{"store", "relations", "store"}[r.Intn(3)]
+		st := sim.Streams[name]
+		st.WithDump = false
+		caps := [][2]int{{1, 1}, {2, 1}, {4, 2}, {16, 4}}[r.Intn(4)]
+		cfg := sim.Config{Cap: caps[0], CapRel: caps[1], Bits: ecs.VerifMaskBits, Debug: ecs.VerifIsDebug,
+			Codes: []int{sim.CodeA, sim.CodeB, sim.CodeC, sim.CodeR1, sim.CodeR2, sim.CodeN1, sim.CodeZ0, sim.CodeRZ}}
+		s := sim.NewSim(cfg)
+		g := sim.NewGen(r, s, st)
+		var lines [][]int64
+		for i, ops := 0, 10+r.Intn(90); i < ops; i++ {
+			l := g.NextOp()
+			lines = append(lines, append([]int64{}, l...))
+			s.Step(l)
+		}
+		if s.W.IsLocked() {
+			continue // DumpEntities runs a query of its own; keep the case simple
+		}
+		if name == "relations" {
+			relWorlds++
+		}
+		dump := s.W.Unsafe().DumpEntities()
+		fresh := sim.NewSim(cfg)
+		fresh.W.Unsafe().LoadEntities(&dump)
+		if len(dump.Alive) > maxAlive {
+			maxAlive = len(dump.Alive)
+		}
+		totalAlive += len(dump.Alive)
+		var sb strings.Builder
+		for i, v := range fresh.W.VerifDump() {
+			if i > 0 {
+				sb.WriteByte(' ')
+			}
+			sb.WriteString(strconv.FormatInt(v, 10))
+		}
+		want = append(want, sb.String())
+		in.WriteString("-102\n")
+		for _, l := range append([][]int64{cfg.Line(), {0}}, lines...) {
+			for i, v := range l {
+				if i > 0 {
+					in.WriteByte(' ')
+				}
+				in.WriteString(strconv.FormatInt(v, 10))
+			}
+			in.WriteByte('\n')
+		}
+		in.WriteString("#\n")
+	}
+	cmd := exec.Command("../../build/arkmodel")
+	cmd.Stdin = strings.NewReader(in.String())
+	out, err := cmd.Output()
+	if err != nil {
+		t.Fatalf("model interpreter failed: %v", err)
+	}
+	var got []string
+	for _, l := range strings.Split(strings.TrimSpace(string(out)), "\n") {
+		if l != "#" {
+			got = append(got, strings.TrimSpace(l))
+		}
+	}
+	if len(got) != len(want) {
+		t.Fatalf("model returned %d lines, want %d", len(got), len(want))
+	}
+	for i := range want {
+		if got[i] != want[i] {
+			t.Fatalf("VERIF-REPLAY world dumpload case %d (seed %d): loaded world differs\nimplementation %s\nmodel          %s", i, seed(), want[i], got[i])
+		}
+	}
+	fmt.Printf("VERIF-STAT {\"world_dumpload_cases\": %d, \"world_dumpload_relation_worlds\": %d, \"world_dumpload_max_alive\": %d, \"world_dumpload_alive_total\": %d}\n", len(want), relWorlds, maxAlive, totalAlive)
+}
